@@ -127,10 +127,13 @@ func (n *Nat) EuclideanDivVarTime(remainder, numerator, denominator *Nat) ct.Boo
 	nn := (*saferith.Nat)(numerator)
 	dd := saferith.ModulusFromNat((*saferith.Nat)(denominator))
 
+	// A numerator announced shorter than the denominator gives a negative default capacity.
+	quotientCap := max(numerator.AnnouncedLen()-dd.BitLen()+2, 0)
+
 	var qq saferith.Nat
-	qq.Div(nn, dd, -1)
+	qq.Div(nn, dd, quotientCap)
 	((*saferith.Nat)(n)).SetNat(&qq)
-	((*saferith.Nat)(n)).Resize(min(numerator.AnnouncedLen(), numerator.AnnouncedLen()-dd.BitLen()+2))
+	((*saferith.Nat)(n)).Resize(min(numerator.AnnouncedLen(), quotientCap))
 	if remainder != nil {
 		var rr saferith.Nat
 		rr.Mul((*saferith.Nat)(denominator), &qq, -1)
